@@ -137,12 +137,14 @@ fn text_strategy() -> BoxedStrategy<String> {
     prop_oneof![
         1 => "[a-z ]{0,6}",
         4 => proptest::collection::vec(prop_oneof![2 => "[a-z]{0,3}", 1 => Just("\t".to_string()), 1 => Just("\t\t".to_string())], 0..6).prop_map(|v| v.concat()),
+        // texts with very many tabs (a count of exactly 256 among them)
+        1 => prop_oneof![Just(255usize), Just(256), Just(257), Just(512)].prop_map(|n| format!("a{}b", "\t".repeat(n))),
     ]
     .boxed()
 }
 
 fn width_strategy() -> BoxedStrategy<usize> {
-    prop_oneof![4 => Just(0usize), 4 => 1usize..5, 4 => 5usize..=16, 2 => Just(8usize), 1 => 17usize..70, 1 => prop_oneof![Just(63usize), Just(64), Just(65), Just(128), Just(129), Just(300)]].boxed()
+    prop_oneof![4 => Just(0usize), 4 => 1usize..5, 4 => 5usize..=16, 2 => Just(8usize), 1 => 17usize..70, 1 => prop_oneof![Just(63usize), Just(64), Just(65), Just(128), Just(129), Just(300), Just(65535), Just(65536), Just(70000)]].boxed()
 }
 
 fn op_strategy() -> BoxedStrategy<TOp> {
@@ -219,6 +221,23 @@ fn decode_tabs(u: &mut FuzzInput) -> TabCase {
 
 fn run_tabs(c: &TabCase) -> CaseResult {
     let _clk = clock::Armed::new();
+    // (hundreds of tabs at a width of tens of thousands of columns would be a line that no terminal of this
+    // harness can hold: texts with many tabs are combined with widths up to 300 only)
+    let widest = c.ops.iter().filter_map(|o| if let TOp::SetTabWidth(w) | TOp::WithTabWidth(w) = o { Some(*w) } else { None }).max().unwrap_or(8);
+    let most_tabs = c
+        .ops
+        .iter()
+        .filter_map(|o| match o {
+            TOp::SetMessage(m) | TOp::WithMessage(m) | TOp::SetPrefix(m) | TOp::WithPrefix(m) | TOp::FinishWithMessage(m) | TOp::AbandonWithMessage(m) | TOp::DropWithMessage(m) | TOp::WithFinishMessage(m, _) => Some(m.matches('\t').count()),
+            _ => None,
+        })
+        .max()
+        .unwrap_or(0);
+    if widest > 300 && most_tabs > 8 {
+        let mut v = Verdict::default();
+        v.label("discarded_many_tabs_at_a_huge_width");
+        return Ok(v);
+    }
     let vt = VTerm::raw(2000, 2000);
     let mut visible = c.hidden.is_none();
     let mut mp: Option<indicatif::MultiProgress> = None;
@@ -459,6 +478,8 @@ fn run_tabs(c: &TabCase) -> CaseResult {
     v.nontrivial = changed_after;
     v.label_if(changed_after, "width_change_after_tab_text");
     v.label_if(c.ops.iter().any(|o| matches!(o, TOp::ReTemplate(_))), "retemplate_of_cloned_style");
+    v.label_if(most_tabs >= 255, "text_with_hundreds_of_tabs");
+    v.label_if(widest >= 65536, "tab_width_beyond_u16");
     v.label_if(c.ops.iter().any(|o| matches!(o, TOp::SetTabWidth(0) | TOp::WithTabWidth(0))), "width_zero");
     v.label_if(c.ops.iter().any(|o| matches!(o, TOp::DropWithMessage(_))), "drop_with_message");
     v.label_if(c.ops.iter().any(|o| matches!(o, TOp::FinishWithMessage(m) | TOp::AbandonWithMessage(m) if m.contains('\t'))), "finish_message_with_tab");
@@ -481,7 +502,7 @@ pub fn property() -> Property {
             cases: |t| t.pick(30_000, 1_200_000),
             run: run_tabs,
             signature: no_signature,
-            essential: &["width_change_after_tab_text", "retemplate_of_cloned_style", "width_zero", "drop_with_message", "finish_message_with_tab", "configured_while_hidden_then_shown", "stored_finish_message_applied", "style_taken_from_the_bar_earlier_set_again", "expanded_text_set_again_as_plain_text", "bar_lines_repainted_by_println"],
+            essential: &["width_change_after_tab_text", "retemplate_of_cloned_style", "width_zero", "drop_with_message", "finish_message_with_tab", "configured_while_hidden_then_shown", "stored_finish_message_applied", "style_taken_from_the_bar_earlier_set_again", "expanded_text_set_again_as_plain_text", "bar_lines_repainted_by_println", "text_with_hundreds_of_tabs", "tab_width_beyond_u16"],
             workers: w,
             decode: Some(decode_tabs),
         })],
